@@ -435,6 +435,12 @@ theorem body_sem (k i : Nat) (nd : Node) (hn : cx.g[i]? = some nd) (a : AMode) (
   | enable c => rw [hk] at h; simp only [body] at h; exact hs _ _ _ _ _ _ hv h
   | disable c => rw [hk] at h; simp only [body] at h; exact hs _ _ _ _ _ _ hv h
   | action fam c => rw [hk] at h; simp only [body] at h; exact hs _ _ _ _ _ _ hv h
+  | state d c =>
+    rw [hk] at h
+    simp only [body, Option.map_eq_some_iff] at h
+    obtain ⟨r0, h0, rfl⟩ := h
+    obtain ⟨o, ho, hsem⟩ := hs _ _ _ _ _ _ hv h0
+    exact ⟨o, (absO_congr (r := r0) rfl rfl).trans ho, hsem⟩
 
 end body
 
